@@ -113,6 +113,21 @@ mut("C13-revert-stray-iterate-fix", "ti_bup.c",
     "	abTPoss(absyn) = tpossSingleton(tfExit);")
 
 
+mut("C09-mark-pending-drain-loses-entry", "store.c",
+    "		stoMarkPendingCount--;\n		lo = stoMarkPending[stoMarkPendingCount].lo;\n		hi = stoMarkPending[stoMarkPendingCount].hi;\n		n += stoGcMarkRange(lo, hi, (int) 0);",
+    "		lo = stoMarkPending[stoMarkPendingCount - 1].lo;\n		hi = stoMarkPending[stoMarkPendingCount - 1].hi;\n		n += stoGcMarkRange(lo, hi, (int) 0);\n		stoMarkPendingCount--;")
+mut("C09-revert-marker-depth-bound", "store.c",
+    "		if (stoMarkDepth >= StoMarkDepthMax &&\n		    stoMarkPendingCount < StoMarkPendingMax) {",
+    "		if (false) {")
+
+
+mut("C18-revert-main-name-fix", "emit.c",
+    "	if (emitInfoIsAXLmain(finfo) && ft == FTYPENO_C &&\n	    emitOutputFileName[FTYPENO_AXLMAINC])\n		return emitOutputFileName[FTYPENO_AXLMAINC];",
+    "")
+mut("C18-revert-file-id-restore", "axlcomp.c",
+    "	emitSetFileIdName(fileId);", "	(void) fileId;")
+
+
 def main():
     out = os.path.join(os.path.dirname(os.path.abspath(__file__)), "mutants")
     os.makedirs(out, exist_ok=True)
